@@ -57,6 +57,7 @@ type PredSpec struct {
 	Ret       string // "bool" for preds
 	Rec       bool   // the body calls the function itself
 	Decreases Expr   // measure of a recursive spec function
+	AsFun     bool   // `fun`: kept as an uninterpreted function with a definitional axiom (gives quantifiers over its arguments a trigger)
 	Body      Expr
 	Text      string
 	File      string
@@ -70,7 +71,7 @@ type ContractFile struct {
 	Order []string
 }
 
-var kwRe = regexp.MustCompile(`^(func|pred|spec|requires|ensures|invariant|decreases|modifies|loop|inline|trusted|pure|mode|check-overflow|assume-note|option)\b`)
+var kwRe = regexp.MustCompile(`^(func|fun|pred|spec|requires|ensures|invariant|decreases|modifies|loop|inline|trusted|pure|mode|check-overflow|assume-note|option)\b`)
 
 // ParseContractFile reads //@ lines.
 func ParseContractFile(path string) (*ContractFile, error) {
@@ -126,7 +127,7 @@ func ParseContractFile(path string) (*ContractFile, error) {
 			cf.Funcs[name] = cur
 			cf.Order = append(cf.Order, name)
 			curLoop = nil
-		case "pred", "spec":
+		case "pred", "spec", "fun":
 			txt := it.text
 			if it.kw == "spec" {
 				txt = strings.TrimSpace(strings.TrimPrefix(strings.TrimSpace(txt), "func"))
@@ -136,6 +137,7 @@ func ParseContractFile(path string) (*ContractFile, error) {
 				return nil, fmt.Errorf("%s:%d: %v", path, it.line, err)
 			}
 			ps.File, ps.Line = path, it.line
+			ps.AsFun = it.kw == "fun"
 			cf.Preds[ps.Name] = ps
 			cur = nil
 		default:
